@@ -47,17 +47,14 @@ def lrot(s, k):
     return rot(s, -k)
 
 
-def canon(s):
-    """Canonical representative of a circular word (least rotation, upper)."""
-    s = s.upper()
+def least_rotation(s):
+    """Lexicographically least rotation (no case folding)."""
     n = len(s)
     if n == 0:
         return s
-    # Booth-free simple version; n is small (<= a few kb) in the checks
     d = s + s
     best = 0
     for i in range(1, n):
-        # compare rotation i with best lazily
         a, b = i, best
         j = 0
         while j < n and d[a + j] == d[b + j]:
@@ -65,6 +62,11 @@ def canon(s):
         if j < n and d[a + j] < d[b + j]:
             best = i
     return d[best:best + n]
+
+
+def canon(s):
+    """Canonical representative of a circular word (least rotation, upper)."""
+    return least_rotation(s.upper())
 
 
 def circ_equal(a, b):
